@@ -250,6 +250,18 @@ fn chk_codec(c: Compression, kind: u64, size: usize, seed: u64) -> Result<(), St
     }
     Ok(())
 }
+/// one-shot helpers on an input larger than any window a codec may be configured with (2^27 bytes and beyond)
+fn chk_codec_big(c: Compression, size: usize) -> Result<(), String> {
+    let data: Vec<u8> = (0..size).map(|i| b"abcabcabd"[i % 9] ^ ((i >> 16) as u8)).collect();
+    let z = pmtiles2::util::compress_all(c, &data).map_err(|e| format!("compress_all: {e}"))?;
+    if pmtiles2::util::decompress_all(c, &z).map_err(|e| format!("decompress_all of compress_all's output ({size} bytes of input): {e}"))? != data {
+        return Err("decompress_all(compress_all(x)) != x".into());
+    }
+    if spec::codec_decompress(comp_code(c) as u8, &z).map_err(|e| format!("the upstream library cannot decode compress_all's output: {e}"))? != data {
+        return Err("the upstream library decodes compress_all's output to other bytes".into());
+    }
+    Ok(())
+}
 fn chk_codec_unknown() -> Result<(), String> {
     let c = Compression::Unknown;
     let mut v = Vec::new();
